@@ -1073,3 +1073,8 @@ def check(run):
     r04i(run)
     run.rules_run.append("R04j")
     r04j(run)
+    # shared with C18: recursion through nested data classes ends at the input's depth - or, for a cyclic input, at the
+    # interpreter's stack limit, which is only reached in reasonable time if a level is not re-parsed several times
+    from . import c18
+    run.rules_run.append("R18e")
+    c18.r18e(run)
